@@ -232,6 +232,28 @@ void run_case(ByteSource& s, CaseInfo& ci) {
       CHECK(fabsl((ld)n1 - (ld)e1) <= tn + tol + TINY, "C05|GetExpectationValueD|disagrees-with-node-form-at-node", "node form %.17g vs D form %.17g :: %s", n1, e1, ctx.c_str());
       ci.ratio("node-form", (double)(fabsl((ld)n1 - wn) / (tn + TINY)));
       ci.label("at-node");
+      if (tau != 0 && s.flag()) {  // node-indexed averaging overload with a reachable scale
+        std::vector<double> h0v = hx; h0v[0] = 0; Mat MHx = toM(h0v, d);
+        std::vector<ld> phases; for (int j = 0; j < d; j++) for (int m = j + 1; m < d; m++) phases.push_back(fabsl((MHx.a[j][j].real() - MHx.a[m][m].real()) * tau));
+        double scale = (double)(phases[s.choose((unsigned)phases.size())] * (0.5 + s.unif01())) + (s.flag() ? 0.0 : 0.1);
+        ld slack = 64 * EPS * fabsl(tau) * hdiag + 1e-300L; bool zone = false; int nfilt = 0;
+        Mat RS(d);
+        for (int j = 0; j < d; j++) for (int m = 0; m < d; m++) {
+          ld w = (MHx.a[j][j].real() - MHx.a[m][m].real()) * tau;
+          if (j != m && fabsl(fabsl(w) - fabs(scale)) <= slack) zone = true;
+          bool keep = j == m || fabsl(w) <= fabs(scale);
+          if (!keep && j < m) nfilt++;
+          RS.a[j][m] = keep ? MN.a[j][m] * cld(cosl(-w), sinl(-w)) : cld(0, 0);
+        }
+        if (!zone) {
+          for (size_t a = 0; a < avr.size(); a++) avr[a] = (a & 1);
+          double nf = S.GetExpectationValue(O, ir, node, scale, avr);
+          int nfl = 0; for (bool f : avr) nfl += f ? 1 : 0;
+          ld wantf = trace(RS * MO).real();
+          CHECK(fabsl((ld)nf - wantf) <= tn + TINY, "C05|GetExpectationValue-avg|reachable-scale-wrong", "scale=%.17g lib=%.17g model=%.17Lg :: %s", scale, nf, wantf, ctx.c_str());
+          CHECK(nfl == nfilt, "C05|GetExpectationValue-avg|wrong-number-of-flags", "scale=%.17g flags=%d filtered pairs=%d :: %s", scale, nfl, nfilt, ctx.c_str());
+        }
+      }
     } else {
       // also the node-indexed form on some node, for its own sake
       unsigned nn = s.choose(B.nx);
